@@ -1,0 +1,120 @@
+//
+// Copyright (c) SAS Institute Inc.
+//
+// Licensed under the Apache License, Version 2.0 (the "License");
+// you may not use this file except in compliance with the License.
+// You may obtain a copy of the License at
+//
+//     http://www.apache.org/licenses/LICENSE-2.0
+//
+// Unless required by applicable law or agreed to in writing, software
+// distributed under the License is distributed on an "AS IS" BASIS,
+// WITHOUT WARRANTIES OR CONDITIONS OF ANY KIND, either express or implied.
+// See the License for the specific language governing permissions and
+// limitations under the License.
+//
+
+package signdeb
+
+import (
+	"bytes"
+	"fmt"
+	"io"
+	"testing"
+
+	"github.com/blakesmith/ar"
+)
+
+func arMember(name, mode, size, body string) string {
+	return fmt.Sprintf("%-16s%-12s%-6s%-6s%-8s%-10s`\n%s", name, "1500000000", "0", "0", mode, size, body)
+}
+
+func TestArReader(t *testing.T) {
+	var buf bytes.Buffer
+	w := ar.NewWriter(&buf)
+	if err := w.WriteGlobalHeader(); err != nil {
+		t.Fatal(err)
+	}
+	members := []struct{ name, body string }{
+		{"debian-binary", "2.0\n"},
+		{"odd", "abc"},
+		{"_gpgbuilder", "sig"},
+		{"last", "xy"},
+	}
+	for _, m := range members {
+		if err := w.WriteHeader(&ar.Header{Name: m.name, Size: int64(len(m.body)), Mode: 0100644}); err != nil {
+			t.Fatal(err)
+		}
+		if _, err := w.Write([]byte(m.body)); err != nil {
+			t.Fatal(err)
+		}
+	}
+	for _, seekable := range []bool{true, false} {
+		var src io.Reader = bytes.NewReader(buf.Bytes())
+		if !seekable {
+			src = io.MultiReader(src)
+		}
+		r, err := newArReader(src)
+		if err != nil {
+			t.Fatal(err)
+		}
+		for i, m := range members {
+			hdr, err := r.Next()
+			if err != nil {
+				t.Fatalf("member %d: %s", i, err)
+			}
+			if hdr.Name != m.name || hdr.Size != int64(len(m.body)) {
+				t.Errorf("member %d: got %q size %d", i, hdr.Name, hdr.Size)
+			}
+			if i == 2 {
+				// skipped without reading
+				continue
+			}
+			body, err := io.ReadAll(r)
+			if err != nil || string(body) != m.body {
+				t.Errorf("member %d: got %q, %v", i, body, err)
+			}
+		}
+		if _, err := r.Next(); err != io.EOF {
+			t.Errorf("expected EOF, got %v", err)
+		}
+	}
+}
+
+func TestArReaderMalformed(t *testing.T) {
+	for name, blob := range map[string]string{
+		"empty":          "",
+		"not ar":         "!<arch>",
+		"short header":   ar.GLOBAL_HEADER + "debian-binary   ",
+		"no trailer":     ar.GLOBAL_HEADER + fmt.Sprintf("%-60s", "debian-binary"),
+		"empty size":     ar.GLOBAL_HEADER + arMember("x", "100644", "", ""),
+		"negative size":  ar.GLOBAL_HEADER + arMember("x", "100644", "-4", "abcd"),
+		"bad size":       ar.GLOBAL_HEADER + arMember("x", "100644", "0x10", ""),
+		"truncated body": ar.GLOBAL_HEADER + arMember("x", "100644", "100", "abcd"),
+	} {
+		r, err := newArReader(bytes.NewReader([]byte(blob)))
+		if err == nil {
+			_, err = r.Next()
+		}
+		if err == nil {
+			_, err = io.ReadAll(r)
+		}
+		if err == nil || err == io.EOF {
+			t.Errorf("%s: expected an error, got %v", name, err)
+		}
+	}
+	// fields that are not needed may be blank or short
+	for _, mode := range []string{"", "6", "64"} {
+		r, err := newArReader(bytes.NewReader([]byte(ar.GLOBAL_HEADER + arMember("x", mode, "4", "abcd"))))
+		if err != nil {
+			t.Fatal(err)
+		}
+		hdr, err := r.Next()
+		if err != nil {
+			t.Fatalf("mode %q: %s", mode, err)
+		}
+		if body, err := io.ReadAll(r); err != nil || string(body) != "abcd" || hdr.Name != "x" {
+			t.Errorf("mode %q: got %q, %v", mode, body, err)
+		}
+	}
+}
